@@ -290,7 +290,7 @@ impl Model for SrModel {
 }
 
 pub fn c28(cli: &Cli) {
-    let heights: u32 = cli.tier.pick(6, 8);
+    let heights: u32 = cli.tier.pick(6, 12);
     let subject = StateSubject { heights };
     if let Some(p) = &cli.replay {
         let rf = load_replay(p);
